@@ -150,7 +150,7 @@ int main(int argc, char **argv) {
       outfile = ::fopen(options.file_sout.c_str(), "w");
       if (!outfile)
       {
-        PRINTF("Failed to open file '%s' for write.", options.file_sout.c_str());
+        fprintf(STDERR, "Failed to open file '%s' for write.\n", options.file_sout.c_str());
         return EXIT_FAILURE;
       }
       openFiles.push(outfile);
@@ -163,7 +163,7 @@ int main(int argc, char **argv) {
       progfile = ::fopen(prog[0].c_str(), "r");
       if (!progfile)
       {
-        PRINTF("Failed to open file '%s' for read.", prog[0].c_str());
+        fprintf(STDERR, "Failed to open file '%s' for read.\n", prog[0].c_str());
         return EXIT_FAILURE;
       }
       openFiles.push(progfile);
